@@ -20,11 +20,11 @@ type propPlan struct {
 
 var propPlans = []propPlan{
 	{ID: "C01", Title: "Muxer preserves every accepted access unit",
-		Rules:      []string{"CG0", "F5", "F6", "F10", "T6", "N3", "G2", "P1"},
+		Rules:      []string{"CG0", "F5", "F6", "F10", "F16", "F17", "G13", "T6", "N3", "G2", "P1"},
 		NotDecided: "byte identity through mediacommon's marshaller; timestamp arithmetic (duration = next - this, base-time contiguity); cross-track interleaving; the result for any particular input.",
 		LevelText:  "Structural necessary conditions of exactly-once delivery of written units (look-ahead hand-off, part drain, payload immutability, skip-until-random-access, the 10 s constant) decided on every CFG path; not the value-level equality itself."},
 	{ID: "C02", Title: "Segment boundaries",
-		Rules:      []string{"CG0", "G1", "G12", "G3", "T6", "F2", "F1", "L8"},
+		Rules:      []string{"CG0", "G1", "G12", "G13", "G3", "T6", "F2", "F1", "L8"},
 		NotDecided: "PAT/PMT at the start of MPEG-TS segments (emitted inside mediacommon); 'never skipped when due' for inputs without random-access units; the contents of the init segment.",
 		LevelText:  "The cut condition, the pending-parameter typestate of the four video writers, forced-rotation marking and same-instant rotation of all streams are decided on every path; values are not."},
 	{ID: "C03", Title: "Playlist durations, target durations, date-times",
@@ -32,15 +32,15 @@ var propPlans = []propPlan{
 		NotDecided: "equality of declared and actual media time (needs the samples); PART-TARGET >= every part beyond 'ceil of max over listed parts'.",
 		LevelText:  "Telescoping of durations, monotone target duration, rounding directions, hold-back/skip factors and text resolution are decided structurally."},
 	{ID: "C04", Title: "Playlist evolution",
-		Rules:      []string{"CG0", "G3", "G8", "G9", "F2", "N1", "N2", "L8", "P3"},
+		Rules:      []string{"CG0", "G3", "G8", "G9", "G13", "F2", "N1", "N2", "L8", "P3"},
 		NotDecided: "the relation between two successive responses (a history property) beyond the per-step invariants; arithmetic on runtime counters.",
 		LevelText:  "Per-step inductive invariants of the window and its counters are decided on every path of the rotation functions."},
 	{ID: "C05", Title: "Advertised URIs are fetchable, immutable, consistent",
-		Rules:      []string{"CG0", "P1", "P2", "P3", "P3b", "P4", "P5", "F2", "F15", "T7", "T7b", "T7c"},
+		Rules:      []string{"CG0", "P1", "P2", "P3", "P3b", "P4", "P5", "P6", "F2", "F15", "T7", "T7b", "T7c"},
 		NotDecided: "byte equality of a segment and its concatenated parts on disk (offset arithmetic); HTTP semantics outside the handlers.",
 		LevelText:  "Publication protocol: final before published, never written afterwards without the reader's lock, listed = registered, unregistered on expiry, response shape."},
 	{ID: "C06", Title: "Blocking reload, preload hints, delta updates",
-		Rules:      []string{"CG0", "L1", "L2", "L3", "L8", "F3", "G7", "G7b", "G8", "G9", "N2"},
+		Rules:      []string{"CG0", "L1", "L2", "L3", "L8", "L9", "F3", "G7", "G7b", "G7c", "G8", "G9", "N2"},
 		NotDecided: "which (M,P) are accepted or rejected (unsigned arithmetic on runtime counters); what the unblocked response contains; telling an absent _HLS_part from _HLS_part=0.",
 		LevelText:  "Wait/wake discipline over all schedules, _HLS_* filtering, delta-update shape and roll-over reaching the open segment."},
 	{ID: "C07", Title: "Close unblocks every request and releases storage",
@@ -48,19 +48,19 @@ var propPlans = []propPlan{
 		NotDecided: "'promptly' as a time bound; disk I/O latency under the lock.",
 		LevelText:  "Every waiter leaves on a closed flag that Close sets under the lock before broadcasting; no lock leaks on any path; every owned file is released. Argued sufficient (DESIGN 4, C07) for the sub-statement 'every blocked request completes non-200 after Close, no lock left held, every created file removed' under every interleaving, given monitor semantics."},
 	{ID: "C08", Title: "One writer + concurrent readers",
-		Rules:      []string{"CG0", "L1", "L3", "L4", "L5", "L5b", "L6", "L8", "P1", "P2", "V4b", "V4d"},
+		Rules:      []string{"CG0", "L1", "L3", "L4", "L5", "L5b", "L6", "L8", "L9", "P1", "P2", "V4b", "V4d"},
 		NotDecided: "absence of every panic (nil dereferences are not modelled); single-playlist invariants of a snapshot; monotonic views.",
 		LevelText:  "Every location shared between writer and request goroutines is co-locked or frozen before publication (lockset + ownership analysis over all contexts); no zero divisor in handler code."},
 	{ID: "C09", Title: "A Client reading a Muxer",
-		Rules:      []string{"CG0", "T4", "T5", "T6", "F11", "F12", "F14", "N3"},
+		Rules:      []string{"CG0", "T4", "T5", "T6", "F11", "F12", "F14", "F16", "N3"},
 		NotDecided: "sample identity, time-origin arithmetic, AbsoluteTime.",
 		LevelText:  "Agreement of the muxer's and the client's codec and rendition tables."},
 	{ID: "C10", Title: "Client delivers every sample with normalised time",
-		Rules:      []string{"CG0", "G5", "K6", "F8", "F11", "F12", "F14"},
+		Rules:      []string{"CG0", "G5", "K6", "F8", "F11", "F12", "F14", "F16", "F17", "F18"},
 		NotDecided: "all timestamp arithmetic (rescaling, 33-bit unwrap, NTP extrapolation); sample identity.",
 		LevelText:  "Thin: no negative-time delivery, all times through the leading converter, the stream/track hand-shake cannot wedge."},
 	{ID: "C11", Title: "Segment selection",
-		Rules:      []string{"CG0", "F7", "N3", "K5"},
+		Rules:      []string{"CG0", "F7", "F18", "F19", "F20", "N3", "K5"},
 		NotDecided: "index arithmetic against a moving MEDIA-SEQUENCE; Range header values.",
 		LevelText:  "Start/next/limit constants, re-fetch and throttle between downloads, URL resolution, delta request, EOS sentinel."},
 	{ID: "C12", Title: "Client termination",
@@ -69,7 +69,7 @@ var propPlans = []propPlan{
 		NotDecided: "nothing further of the structural clauses; timing ('promptly') is not decided.",
 		LevelText:  "Every goroutine is pooled, every blocking operation is cancellable by the pool context, cancel-join-send happens once. Argued sufficient (DESIGN 4, C12) for 'once Wait yields no client goroutine is running, exactly one value is yielded'."},
 	{ID: "C13", Title: "Malformed server content",
-		Rules:      []string{"CG0", "V4a", "V4b", "V4c", "V4d", "T4", "K6", "K2", "V3"},
+		Rules:      []string{"CG0", "V4a", "V4b", "V4c", "V4d", "V4e", "T4", "K6", "K2", "V3"},
 		NotDecided: "nil dereferences; busy loops in general; allocation sizes inside mediacommon.",
 		LevelText:  "The enumerated panic sources of client code (type assertions, zero divisors, nil function fields), no silent nil decoder, no wedge on absurd fragment counts."},
 	{ID: "C14", Title: "Marshal/Unmarshal round trip",
@@ -85,7 +85,7 @@ var propPlans = []propPlan{
 		NotDecided: "which rendition is DEFAULT for a given track list; bandwidth values; RESOLUTION/FRAME-RATE values.",
 		LevelText:  "Query preserved on every URI, rendition attributes carried, CODECS entry per track."},
 	{ID: "C17", Title: "Storage",
-		Rules:      []string{"T7", "T7b", "T7c", "P6"},
+		Rules:      []string{"T7", "T7b", "T7c", "T7d", "P6"},
 		NotDecided: "byte-for-byte equivalence, offsets, reader cursor logic.",
 		LevelText:  "Thin: no read before Finalize in both backends, mirror writer forwards identically, Remove removes what Create created."},
 	{ID: "C18", Title: "Bounded retention",
